@@ -31,6 +31,7 @@ LEVEL = 'proof'
 LEAN_TARGETS = ['MesonModel.Props.C09']
 AREAS = ['crash']
 PINS = [
+    'mesonbuild.backend.ninjabackend:NinjaBackend.generate',
     'mesonbuild.coredata:save',
     'mesonbuild.coredata:load',
     'mesonbuild.build:save',
